@@ -87,7 +87,7 @@ Lemma step_buried st o :
   op_ok o -> entries_ok (awaiting st) -> emitted_buried st ->
   entries_ok (awaiting (step st o)) /\ emitted_buried (step st o).
 Proof.
-  intros Ho Ha He. destruct o as [b txs | b | f | id | dep tag]; cbn [step op_ok] in *.
+  intros Ho Ha He. destruct o as [b txs | b | f | id | | dep tag]; cbn [step op_ok] in *; [ | | | | split; assumption | ].
   - pose proof (add_txs_awaiting_ok st b txs Ho Ha) as Ha1.
     destruct (add_txs_fields st b txs) as (F1 & F2 & F3 & F4).
     destruct (best_h (add_txs st b txs) <? b_height b); apply block_confirmed_buried; cbn [awaiting emitted];
@@ -183,7 +183,7 @@ Qed.
 Lemma step_idempotent st o :
   match o with TC _ _ | BB _ => step (step st o) o = step st o | _ => True end.
 Proof.
-  destruct o as [b txs | b | f | id | dep tag]; try exact I.
+  destruct o as [b txs | b | f | id | | dep tag]; try exact I.
   - cbn [step]. set (st1 := add_txs st b txs).
     set (st2 := if best_h st1 <? b_height b then mkSt (b_height b) (b_hash b) (awaiting st1) (done_txids st1) (emitted st1) else st1).
     set (st3 := block_confirmed st2).
@@ -478,7 +478,7 @@ Lemma step_inv chain st D o :
              | _ => True
              end.
 Proof.
-  intros Hu Hok Hinv HD Hh. destruct o as [b txs | b | f | id | dep tag]; cbn [lin_ok] in Hok; try contradiction.
+  intros Hu Hok Hinv HD Hh. destruct o as [b txs | b | f | id | | dep tag]; cbn [lin_ok] in Hok; try contradiction.
   - destruct Hok as (Hb & Hsub). cbn [step].
     destruct (add_txs_mid chain b txs st D [] Hu Hb Hsub HD ltac:(intros p []) (inv_to_mid st D Hinv))
       as (Dn & _ & HDn & Hmid & Hcov & Hbk).
@@ -603,7 +603,7 @@ Proof. unfold block_confirmed. cbn [awaiting]. apply coherent_sub. intros e He. 
     [BD], [BB], [TU] filter on the height alone). *)
 Lemma step_coherent st o : coherent (awaiting st) -> coherent (awaiting (step st o)).
 Proof.
-  intros Hc. destruct o as [b txs | b | f | id | dep tag]; cbn [step].
+  intros Hc. destruct o as [b txs | b | f | id | | dep tag]; cbn [step]; [ | | | | exact Hc | ].
   - apply block_confirmed_coherent. pose proof (add_txs_coherent b txs st Hc) as H1.
     destruct (best_h (add_txs st b txs) <? b_height b); [cbn [awaiting]|]; exact H1.
   - destruct (best_h st <? b_height b); [apply block_confirmed_coherent; exact Hc|].
@@ -756,4 +756,126 @@ Proof.
     as (E1 & E2 & E3 & E4 & E5 & E6).
   cbn [step]. rewrite E3, E4, E5, Hfp. fold H. f_equal.
   rewrite filter_filter_impl; [reflexivity | intros x Hx; exact Hx].
+Qed.
+
+(** * Boundary of a disconnection, restarts, the alternative funding, the block filter *)
+
+(** [blocks_disconnected] back to fork point [f] keeps exactly the entries at or below the fork point's
+    height -- the fork point is the last block kept -- and touches nothing else. *)
+Lemma disconnect_boundary st f :
+  (forall e, In e (awaiting (step st (BD f))) <-> In e (awaiting st) /\ e_height e <= b_height f) /\
+  done_txids (step st (BD f)) = done_txids st /\ emitted (step st (BD f)) = emitted st /\
+  best_h (step st (BD f)) = b_height f.
+Proof.
+  cbn [step awaiting done_txids emitted best_h]. split; [|repeat split; reflexivity].
+  intros e. rewrite filter_In, Z.leb_le. reflexivity.
+Qed.
+
+(** ... and so does it treat the recorded alternative funding: recorded at the fork point's height or
+    below it stays, above it goes. *)
+Lemma disconnect_boundary_alt pending x f t h :
+  alt x = Some (t, h) ->
+  (h <= b_height f -> alt (xstep pending x (BD f)) = Some (t, h)) /\
+  (b_height f < h -> alt (xstep pending x (BD f)) = None).
+Proof.
+  intros E. cbn [xstep alt]. rewrite E. split; intros H.
+  - destruct (Z.ltb_spec (b_height f) h); [lia | reflexivity].
+  - destruct (Z.ltb_spec (b_height f) h); [reflexivity | lia].
+Qed.
+
+(** whole-block deliveries never change an alternative funding that is already recorded *)
+Lemma xrun_bc_alt_some pending : forall blocks x a, alt x = Some a -> alt (xrun pending x (map BC blocks)) = Some a.
+Proof.
+  induction blocks as [|b r IH]; intros x a E; [exact E|]. cbn [map xrun fold_left]. apply IH.
+  cbn [xstep BC alt]. unfold alt_of_txs. rewrite E. reflexivity.
+Qed.
+
+Lemma xrun_bc_alt_none pending : forall blocks x H, alt x = None ->
+  Forall (fun b => H < b_height b) blocks ->
+  alt (xrun pending x (map BC blocks)) = None \/ exists t h, alt (xrun pending x (map BC blocks)) = Some (t, h) /\ H < h.
+Proof.
+  induction blocks as [|b r IH]; intros x H E Hb; [left; exact E|]. cbn [map xrun fold_left].
+  inversion Hb as [|? ? Hb1 Hb2]; subst.
+  destruct (alt (xstep pending x (BC b))) as [[t h]|] eqn:E1.
+  - right. exists t, h. split; [apply xrun_bc_alt_some; exact E1|].
+    cbn [xstep BC alt] in E1. unfold alt_of_txs in E1. rewrite E in E1.
+    destruct (find _ (b_txs b)); [|discriminate]. inversion E1; subst. exact Hb1.
+  - apply (IH _ H E1 Hb2).
+Qed.
+
+(** A fork on top of [f], whatever it confirms, followed by the disconnection back to [f], leaves the
+    alternative funding as it was, provided it was recorded at or below [f] (or not at all). *)
+Lemma fork_leaves_alt pending x fork f :
+  (match alt x with Some (_, h) => h <= b_height f | None => True end) ->
+  Forall (fun b => b_height f < b_height b) fork ->
+  alt (xstep pending (xrun pending x (map BC fork)) (BD f)) = alt x.
+Proof.
+  intros Ha Hf. destruct (alt x) as [[t h]|] eqn:E.
+  - pose proof (xrun_bc_alt_some pending fork x (t, h) E) as E2.
+    apply (proj1 (disconnect_boundary_alt pending _ f t h E2)). exact Ha.
+  - destruct (xrun_bc_alt_none pending fork x (b_height f) E Hf) as [E2 | (t & h & E2 & Hh)].
+    + cbn [xstep alt]. rewrite E2. reflexivity.
+    + apply (proj2 (disconnect_boundary_alt pending _ f t h E2)). exact Hh.
+Qed.
+
+(** A restart (serialize, read back) is invisible: as an operation it changes nothing, wherever it is
+    inserted in an operation list. *)
+Lemma reload_invariant st : step st RL = st.
+Proof. reflexivity. Qed.
+
+Lemma reload_anywhere st a b : run st (a ++ RL :: b) = run st (a ++ b).
+Proof. unfold run. rewrite !fold_left_app. reflexivity. Qed.
+
+Lemma xreload_anywhere pending x a b : xrun pending x (a ++ RL :: b) = xrun pending x (a ++ b).
+Proof.
+  unfold xrun. rewrite !fold_left_app. cbn [fold_left]. f_equal.
+  destruct (fold_left (xstep pending) a x) as [c al]. reflexivity.
+Qed.
+
+Lemma reload_all st a b :
+  step st RL = st /\ run st (a ++ RL :: b) = run st (a ++ b) /\
+  forall pending x, xrun pending x (a ++ RL :: b) = xrun pending x (a ++ b).
+Proof. split; [apply reload_invariant | split; [apply reload_anywhere | intros; apply xreload_anywhere]]. Qed.
+
+(** The block filter: whatever per-transaction delivery finds (each transaction in its own call, the
+    watched outputs growing with every transaction processed), whole-block delivery finds too -- a child
+    of a transaction kept earlier in the block is recognised through ANY of its inputs. *)
+Lemma existsb_in {A} (f : A -> bool) l : existsb f l = true <-> exists x, In x l /\ f x = true.
+Proof. apply existsb_exists. Qed.
+
+Lemma per_tx_sub_filter_block : forall txs w w' m,
+  (forall o, In o w' -> In o w \/ In (fst o) m) ->
+  forall t, In t (per_tx w' txs) -> In t (filter_block w m txs).
+Proof.
+  induction txs as [|t0 r IH]; intros w w' m Hinv t Hin; [exact Hin|]. cbn [per_tx filter_block] in *.
+  destruct (spends_watched w' t0) eqn:Ew.
+  - assert (Hk : spends_watched w t0 || spends_matched m t0 = true).
+    { unfold spends_watched in Ew. apply existsb_exists in Ew as (i & Hi & Ho). apply existsb_exists in Ho as (o & Ho & Heq).
+      apply andb_true_iff in Heq as (E1 & E2). apply Z.eqb_eq in E1, E2.
+      destruct (Hinv o Ho) as [Hw | Hm].
+      - apply orb_true_iff. left. unfold spends_watched. apply existsb_exists. exists i. split; [exact Hi|].
+        apply existsb_exists. exists o. split; [exact Hw|]. apply andb_true_iff. split; apply Z.eqb_eq; assumption.
+      - apply orb_true_iff. right. unfold spends_matched. apply existsb_exists. exists i. split; [exact Hi|].
+        apply existsb_exists. exists (fst o). split; [exact Hm|]. apply Z.eqb_eq. symmetry. exact E1. }
+    rewrite Hk. destruct Hin as [<- | Hin]; [left; reflexivity|]. right.
+    apply (IH w (w' ++ map (fun v => (f_id t0, v)) (f_watch t0)) (f_id t0 :: m)); [|exact Hin].
+    intros o Ho. apply in_app_or in Ho as [Ho | Ho].
+    + destruct (Hinv o Ho) as [H1 | H1]; [left; exact H1 | right; right; exact H1].
+    + apply in_map_iff in Ho as (v & <- & _). right. left. reflexivity.
+  - destruct (spends_watched w t0 || spends_matched m t0).
+    + right. apply (IH w w' (f_id t0 :: m)); [|exact Hin]. intros o Ho. destruct (Hinv o Ho) as [H1 | H1]; [left; exact H1 | right; right; exact H1].
+    + apply (IH w w' m Hinv t Hin).
+Qed.
+
+Lemma whole_block_finds_what_per_tx_finds w txs t : In t (per_tx w txs) -> In t (filter_block w [] txs).
+Proof. apply per_tx_sub_filter_block. intros o Ho. left. exact Ho. Qed.
+
+(** a child is kept whatever the position of the input that spends its parent *)
+Lemma filter_child_any_input w m t r i :
+  In i (f_ins t) -> In (fst i) m -> filter_block w m (t :: r) = t :: filter_block w (f_id t :: m) r.
+Proof.
+  intros Hi Hm. cbn [filter_block].
+  assert (E : spends_matched m t = true).
+  { unfold spends_matched. apply existsb_exists. exists i. split; [exact Hi|]. apply existsb_exists. exists (fst i). split; [exact Hm | apply Z.eqb_refl]. }
+  rewrite E, orb_true_r. reflexivity.
 Qed.
